@@ -391,7 +391,7 @@ def mutants(mb):
     mb.add_text("ser-double-alias", S, "                        self.aliaser(serialized.alias),\n", "                        self.aliaser(self.aliaser(serialized.alias)),\n", "C11.R1", "object")
     mb.add_text("schema-prop-name", J, "                AliasedStr(field.alias),\n                field.name,\n                field.ordering,\n                field.required,", "                AliasedStr(field.name),\n                field.name,\n                field.ordering,\n                field.required,", "C11.R1", "properties")
     mb.add_text("schema-prop-raw", J, "                AliasedStr(serialized.alias),\n", "                serialized.alias,\n", "C11.R2", "Property.alias")
-    mb.add_text("schema-depreq-raw", J, "alias_by_names = {f.name: AliasedStr(f.alias) for f in fields}.__getitem__", "alias_by_names = {f.name: f.alias for f in fields}.__getitem__", "C11.R2", "dependentRequired")
+    mb.add_text("schema-depreq-raw", J, "aliases = {f.name: AliasedStr(f.alias) for f in fields}\n", "aliases = {f.name: f.alias for f in fields}\n", "C11.R2", "dependentRequired")
     mb.add_text("schema-propertyname-raw", J, '            "propertyName": AliasedStr(discriminator.alias)\n', '            "propertyName": discriminator.alias\n', "C11.R2", "propertyName")
     mb.add_text("schema-no-aliaser-serialize", J, "        json_schema,\n        aliaser=aliaser,\n        check_type=True,", "        json_schema,\n        check_type=True,", "C11.R5", "_schema")
     mb.add_text("graphql-out-name", G, "        flattened_factories = []\n        for field in fields:\n            if not field.is_aggregate:\n                normal_field = NormalField(\n                    self.aliaser(field.alias),", "        flattened_factories = []\n        for field in fields:\n            if not field.is_aggregate:\n                normal_field = NormalField(\n                    self.aliaser(field.name),", "C11.R1", "OutputSchemaBuilder.object")
@@ -409,4 +409,4 @@ def mutants(mb):
     # negatives
     mb.add_text("neg-local-alias-var", S, "                        self.aliaser(serialized.alias),\n", "                        self.aliaser(serialized_alias),\n", negative=True)
     mb.out[-1].new_src = mb.out[-1].new_src.replace("            ret_type = types[\"return\"]\n            fields_to_order.append(", "            ret_type = types[\"return\"]\n            serialized_alias = serialized.alias\n            fields_to_order.append(", 1)
-    mb.add_text("neg-rename-loop", J, "alias_by_names = {f.name: AliasedStr(f.alias) for f in fields}.__getitem__", "alias_by_names = {fld.name: AliasedStr(fld.alias) for fld in fields}.__getitem__", negative=True)
+    mb.add_text("neg-rename-loop", J, "aliases = {f.name: AliasedStr(f.alias) for f in fields}\n", "aliases = {fld.name: AliasedStr(fld.alias) for fld in fields}\n", negative=True)
